@@ -3,6 +3,7 @@ package c16
 import (
 	"fmt"
 	"math/rand/v2"
+	"reflect"
 	"sort"
 	"strings"
 
@@ -12,14 +13,22 @@ import (
 	"verif/internal/sl"
 )
 
-// Op is one hash-table operation: O in set get rem clr map cnt; S the key
-// slot; I which of the two separately built key objects of the slot is used;
-// V the value stored (0 = nil).
+// Op is one hash-table operation: O in set get rem clr map cnt, and
+//
+//	mapdel : maphash with a function that removes the entry it is called with when its value is odd
+//	mapinc : maphash with a function that stores value+1000 under the key it is called with
+//	bad    : a store whose value form signals an error - the table must be unchanged
+//
+// S the key slot; I which of the two separately built key objects of the slot
+// is used; V the value stored (0 = nil); T the table: 0 = the table, 1 = a
+// second, independent table made by another make-hash-table (it shares the key
+// objects), 2 = the first table again, reached through a second variable.
 type Op struct {
 	O string `json:"o"`
 	S int    `json:"s,omitempty"`
 	I int    `json:"i,omitempty"`
 	V int    `json:"v,omitempty"`
+	T int    `json:"t,omitempty"`
 }
 
 // the table tests; "" = make-hash-table without :test
@@ -39,6 +48,7 @@ var cleanKeys = []Obj{
 	opq("(make-instance 'c16-pt :x 1)"), opq("(lambda (x) x)"), opq("(make-instance 'c16-fl)"),
 	opq("(make-c16-st :a 1)"), opq("(make-condition 'c16-cond)"), opq("(make-array (list 2 2))"), opq("(make-string-output-stream)"),
 	vec(list(fix(1), fix(2)), str("x")), vec(vec(fix(1))), chr("é"), chr("É"), str("é"), str("abc"), str("ABC"), str("Abc"),
+	num("octet", "9"), num("octet", "200"), num("bit", "0"), num("complex", "1 2"), num("complex", "1 3"), num("complex", "3.5 0"), Obj{K: "bitv", V: "101"},
 }
 
 // keys the pinned tree is known to mishandle, one hazard class each
@@ -46,6 +56,8 @@ var dirtyKeys = map[string][]Obj{
 	"ptrnum:big":   {num("big", p70), num("big", "-"+p64)},
 	"ptrnum:ratio": {num("ratio", "1/2"), num("ratio", "-7/3")},
 	"ptrnum:long":  {num("long", "1.5"), num("long", "10.0")},
+	"ptrnum:sbyte": {num("sbyte", "11"), num("sbyte", "-11")},
+	"ptrnum:ubyte": {num("ubyte", "11")},
 	"unhashable:list": {list(fix(1), fix(2)), dot(fix(1), fix(2)), list(str("a"))},
 	"unhashable:hash-table": {opq("(make-hash-table)")},
 	"unhashable:octets":     {opq("(coerce \"ab\" 'octets)")},
@@ -56,9 +68,11 @@ var crossPairs = [][2]Obj{
 	{fix(5), num("single", "5.0")},
 	{num("single", "0.25"), num("double", "0.25")},
 	{fix(2), num("double", "2.0")},
+	{fix(5), num("octet", "5")},
+	{fix(1), num("bit", "1")},
 }
 
-var dirtyNames = []string{"ptrnum:big", "ptrnum:ratio", "ptrnum:long", "unhashable:list", "unhashable:hash-table", "unhashable:octets", "crossrepr"}
+var dirtyNames = []string{"ptrnum:big", "ptrnum:ratio", "ptrnum:long", "ptrnum:sbyte", "ptrnum:ubyte", "unhashable:list", "unhashable:hash-table", "unhashable:octets", "crossrepr"}
 
 // hazardOf names what a key set contains that the avoid set keeps out of
 // most histories. Computed from the case itself, not taken from a label.
@@ -66,7 +80,7 @@ func hazardOf(keys []Obj) string {
 	set := map[string]bool{}
 	for i, k := range keys {
 		switch k.K {
-		case "big", "ratio", "long":
+		case "big", "ratio", "long", "sbyte", "ubyte":
 			set["ptrnum:"+k.K] = true
 		case "list", "dot":
 			set["unhashable:list"] = true
@@ -80,7 +94,7 @@ func hazardOf(keys []Obj) string {
 		}
 		if k.isNum() {
 			for _, k2 := range keys[:i] {
-				if k2.isNum() && k2.K != k.K && exactValue(k2).Cmp(exactValue(k)) == 0 {
+				if k2.isNum() && k2.K != k.K && sameNumber(k2, k) {
 					set["crossrepr"] = true
 				}
 			}
@@ -102,7 +116,7 @@ func hazardOf(keys []Obj) string {
 // are the equivalent ones).
 func sameKeyDesc(a, b Obj) bool {
 	ha, hb := describe(a), describe(b)
-	if group(a.K) == "opq" || group(a.K) == "vec" || group(a.K) == "list" {
+	if group(a.K) == "opq" || group(a.K) == "vec" || group(a.K) == "list" || group(a.K) == "bitv" {
 		return false
 	}
 	return wantEql(ha, hb) == fT
@@ -114,7 +128,7 @@ func pickKeys(r *rand.Rand, pool []Obj, n int, have []Obj) []Obj {
 		k := fw.Pick(r, pool)
 		dup := false
 		for _, o := range out {
-			if sameKeyDesc(o, k) || (o.isNum() && k.isNum() && exactValue(o).Cmp(exactValue(k)) == 0) {
+			if sameKeyDesc(o, k) || (o.isNum() && k.isNum() && sameNumber(o, k)) {
 				dup = true
 			}
 		}
@@ -221,6 +235,7 @@ func sweepHistories() []Case {
 		{num("single", "0.5"), num("single", "1.5"), num("double", "2.5"), num("double", "0.1"), num("double", "-4.0"), num("single", "100.0")},
 		{sym("a"), sym("b"), sym("alpha"), key("a"), key("alpha"), objNil},
 		{objNil, objT, fix(0), str(""), str("nil"), sym("nil1")},
+		{num("octet", "5"), num("octet", "200"), num("bit", "0"), num("bit", "1"), num("complex", "1 2"), num("complex", "2.5 0")},
 		{vec(fix(1), fix(2)), vec(), vec(str("a")), vec(list(fix(1), fix(2)), str("x")), vec(vec(fix(1))), vec(sym("a"))},
 		{opq("(make-instance 'c16-pt :x 1)"), opq("(make-instance 'c16-fl)"), opq("(make-c16-st :a 1)"), opq("(make-c16-st2 :a 1 :c 2)"),
 			opq("(make-condition 'c16-cond)"), opq("(lambda (x) x)")},
@@ -263,10 +278,13 @@ func genHistory(r *rand.Rand) Case {
 	} else {
 		c.Objs = pickKeys(r, cleanKeys, nSlots, nil)
 	}
+	// one history in four runs over two tables that share the key objects
+	// (and addresses the first one through a second variable as well)
+	two := r.IntN(4) == 0
 	n := 5 + r.IntN(8)
 	for t := 0; t < n; t++ {
 		var op Op
-		switch k := r.IntN(20); {
+		switch k := r.IntN(24); {
 		case k < 9:
 			op = Op{O: "set", S: r.IntN(nSlots), I: r.IntN(2), V: 100 + t}
 			if r.IntN(8) == 0 {
@@ -280,13 +298,312 @@ func genHistory(r *rand.Rand) Case {
 			op = Op{O: "get", S: r.IntN(nSlots), I: r.IntN(2)}
 		case k < 19:
 			op = Op{O: "map"}
-		default:
+		case k < 20:
 			op = Op{O: "cnt"}
+		case k < 21:
+			op = Op{O: "mapdel"}
+		case k < 22:
+			op = Op{O: "mapinc"}
+		case k < 23:
+			op = Op{O: "bad", S: r.IntN(nSlots), I: r.IntN(2)}
+		default:
+			op = Op{O: "set", S: r.IntN(nSlots), I: r.IntN(2), V: 100 + t}
+		}
+		if two {
+			op.T = r.IntN(3)
 		}
 		c.Ops = append(c.Ops, op)
 	}
 	return c
 }
+
+// twoTableHistories: fixed histories (x every test, over both exhaustive key
+// sets) in which two tables made by two calls of make-hash-table share their
+// key objects and the first table is also reached through a second variable:
+// an operation on one table leaves the other as it was; maphash functions
+// that remove or re-store the entry they are called with; a store whose value
+// form fails.
+func twoTableHistories() []Case {
+	scripts := [][]Op{
+		{{O: "set", S: 0, I: 0, V: 101}, {O: "set", S: 0, I: 1, V: 201, T: 1}, {O: "get", S: 0, I: 0, T: 2}, {O: "rem", S: 0, I: 0, T: 1}, {O: "set", S: 1, I: 1, V: 102, T: 2},
+			{O: "set", S: 2, I: 0, V: 203, T: 1}, {O: "clr", T: 1}, {O: "cnt"}, {O: "set", S: 3, I: 0, V: 204, T: 1}, {O: "clr", T: 2}, {O: "cnt", T: 1},
+			{O: "set", S: 3, I: 1, V: 105}, {O: "rem", S: 3, I: 0, T: 1}, {O: "get", S: 3, I: 0}},
+		{{O: "set", S: 0, V: 101}, {O: "set", S: 1, V: 102}, {O: "set", S: 2, V: 103}, {O: "set", S: 3, V: 0}, {O: "set", S: 0, I: 1, V: 301, T: 1}, {O: "set", S: 1, I: 1, V: 302, T: 1},
+			{O: "mapdel"}, {O: "mapinc", T: 1}, {O: "mapinc", T: 2}, {O: "mapdel", T: 1}, {O: "bad", S: 1, I: 1}, {O: "bad", S: 4, T: 1}, {O: "mapdel", T: 2}, {O: "mapdel"}, {O: "cnt"}},
+		{{O: "bad", S: 0}, {O: "mapdel"}, {O: "mapinc"}, {O: "set", S: 5, I: 1, V: 101}, {O: "bad", S: 5, I: 0}, {O: "mapinc"}, {O: "mapinc"}, {O: "mapdel"}, {O: "set", S: 5, I: 0, V: 102},
+			{O: "set", S: 4, I: 0, V: 103}, {O: "mapdel"}, {O: "clr"}, {O: "mapdel"}, {O: "mapinc"}},
+	}
+	var cs []Case
+	for _, t := range tests {
+		for _, ks := range [][]Obj{exhKeys, exhKeys2} {
+			for _, sc := range scripts {
+				cs = append(cs, Case{Kind: "hist", Test: t, Objs: ks, Ops: sc})
+			}
+		}
+	}
+	return cs
+}
+
+// ---- large tables ---------------------------------------------------------------
+
+// bigSizes: table sizes around the points where a map implementation changes
+// its layout (an empty table, one entry, a full first bucket, one more, and
+// sizes that force several growth steps).
+var bigSizes = []int{0, 1, 7, 8, 9, 16, 17, 64, 65, 200, 1000}
+
+var bigKeyKinds = []string{"fix", "str", "sym", "char", "double", "mix"}
+
+// bigKey is key i of a large table of the given kind of keys: all keys of one
+// table are different keys under eql (and under every other test: no two
+// differ in case only).
+func bigKey(kind string, i int) Obj {
+	switch kind {
+	case "fix":
+		return fix(i*7 - 300)
+	case "str":
+		return str(fmt.Sprintf("k%d", i))
+	case "sym":
+		return sym(fmt.Sprintf("c16s%d", i))
+	case "char":
+		return chr(string(rune(0x4e00 + i))) // CJK ideographs: no case
+	case "double":
+		return num("double", fmt.Sprintf("%d.5", i-20))
+	}
+	return bigKey([]string{"fix", "str", "sym", "char", "double"}[i%5], i)
+}
+
+func bigCases() []Case {
+	var cs []Case
+	for _, t := range tests {
+		for ki, kind := range bigKeyKinds {
+			for si, n := range bigSizes {
+				if 200 <= n && (ki+si)%2 == 1 && kind != "mix" {
+					continue // the largest sizes for half of the kinds
+				}
+				cs = append(cs, Case{Kind: "big", Test: t, I: n, Ty: kind})
+			}
+		}
+	}
+	return cs
+}
+
+// execBig: n different keys stored by a loop in one form, looked up through
+// separately built equivalent keys, visited by maphash, every third removed,
+// some stored again, the table cleared and used again; after each step the
+// count, every lookup and the set of visited entries are compared with the
+// harness's array of what is stored.
+func execBig(x *fw.Ctx, c Case) {
+	n := c.I
+	if n < 0 || 5000 < n {
+		x.Trivial()
+		return
+	}
+	known := false
+	for _, k := range bigKeyKinds {
+		known = known || k == c.Ty
+	}
+	if !known {
+		x.Trivial()
+		return
+	}
+	scope := slip.NewScope()
+	fail := func(obs, detail, format string, a ...any) {
+		x.Fail(fmt.Sprintf("ht-big obs=%s fail=%s", obs, detail), "test=%q keys=%s n=%d "+format, append([]any{c.Test, c.Ty, n}, a...)...)
+	}
+	descs := make([]Obj, n)
+	for i := range descs {
+		descs[i] = bigKey(c.Ty, i)
+	}
+	// the keys are built twice: ks1 is stored, ks2 is looked up
+	var lists [2]slip.List
+	for b := 0; b < 2; b++ {
+		lists[b] = make(slip.List, n)
+		for i, d := range descs {
+			h, err := build(scope, d)
+			if err != nil || !h.okay {
+				x.Cover("build-mismatch")
+				x.Trivial()
+				return
+			}
+			lists[b][i] = h.obj
+		}
+	}
+	scope.Let(slip.Symbol("ks1"), lists[0])
+	scope.Let(slip.Symbol("ks2"), lists[1])
+	mk := "(make-hash-table)"
+	if c.Test != "" {
+		mk = "(make-hash-table :test (quote " + c.Test + "))"
+	}
+	tab, err := sl.Eval(scope, mk)
+	if err != nil {
+		fail("make", "error", "%s => %s", mk, fmtErr(err))
+		return
+	}
+	scope.Let(slip.Symbol("h"), tab)
+	x.Cover("big-size:" + fmt.Sprint(n))
+	x.Cover("big-keys:" + c.Ty)
+	x.Cover("test:" + c.Test)
+
+	val := make([]int, n) // -1 = absent
+	for i := range val {
+		val[i] = -1
+	}
+	check := func(after string) bool {
+		stored := 0
+		for _, v := range val {
+			if 0 <= v {
+				stored++
+			}
+		}
+		res, err := sl.Eval(scope, "(list (hash-table-count h) (mapcar (lambda (k) (multiple-value-list (gethash k h))) ks2) "+
+			"(let ((acc nil)) (maphash (lambda (k v) (setq acc (cons (list k v) acc))) h) acc))")
+		if err != nil {
+			fail("observe", "error", "after %s: %s", after, fmtErr(err))
+			return false
+		}
+		l, _ := res.(slip.List)
+		if len(l) != 3 {
+			fail("observe", "shape", "after %s: %s", after, sl.Show(res))
+			return false
+		}
+		x.Cover("observed:hash-table-count")
+		if sl.Show(l[0]) != fmt.Sprint(stored) {
+			fail("count", "wrong", "after %s: hash-table-count => %s, %d distinct keys are stored", after, sl.Show(l[0]), stored)
+			return false
+		}
+		gets, _ := l[1].(slip.List)
+		if len(gets) != n {
+			fail("get", "shape", "after %s: %d lookups answered for %d keys", after, len(gets), n)
+			return false
+		}
+		for i, g := range gets {
+			x.Cover("observed:gethash")
+			want := "(nil nil)"
+			if 0 <= val[i] {
+				want = fmt.Sprintf("(%d t)", val[i])
+			}
+			if got := sl.Show(g); got != want {
+				detail := "stale"
+				switch {
+				case val[i] < 0:
+					detail = "phantom"
+				case got == "(nil nil)":
+					detail = "missing"
+				}
+				fail("get", detail, "after %s: (gethash %s h) => %s, the table holds %s", after, descs[i].Text(), got, want)
+				return false
+			}
+		}
+		x.Cover("observed:maphash")
+		pairs, _ := l[2].(slip.List)
+		seen := make([]bool, n)
+		okMap := len(pairs) == stored
+		for _, p := range pairs {
+			kv, _ := p.(slip.List)
+			if len(kv) != 2 {
+				okMap = false
+				break
+			}
+			v, isFix := kv[1].(slip.Fixnum)
+			i := int(v) % 100000
+			if !isFix || i < 0 || n <= i || seen[i] || val[i] != int(v) || !matches(kv[0], describe(descs[i])) {
+				okMap = false
+				break
+			}
+			seen[i] = true
+		}
+		if !okMap {
+			s := sl.Show(l[2])
+			if 300 < len(s) {
+				s = s[:300] + "..."
+			}
+			fail("map", "wrong", "after %s: maphash did not visit each of the %d stored entries exactly once with its key and value: %s", after, stored, s)
+			return false
+		}
+		x.Cover("big-states")
+		return true
+	}
+	run := func(what, src, want string) bool {
+		res, err := sl.Eval(scope, src)
+		if err != nil {
+			k := "error"
+			if err.Internal {
+				k = "internal"
+			}
+			fail("op-"+what, k, "%s => %s", src, fmtErr(err))
+			return false
+		}
+		if got := sl.Show(res); got != want {
+			fail("ret-"+what, "wrong", "%s returned %s, expected %s", src, got, want)
+			return false
+		}
+		return true
+	}
+	if !check("make-hash-table") {
+		return
+	}
+	// store all: the value of key i is i
+	for i := range val {
+		val[i] = i
+	}
+	if !run("set", "(let ((i 0)) (dolist (k ks1) (setf (gethash k h) i) (setq i (+ i 1))) i)", fmt.Sprint(n)) || !check("storing all keys") {
+		return
+	}
+	// store all again through the equivalent keys: value i+100000, no new entries
+	for i := range val {
+		val[i] = i + 100000
+	}
+	if !run("set", "(let ((i 0)) (dolist (k ks2) (setf (gethash k h) (+ i 100000)) (setq i (+ i 1))) (hash-table-count h))", fmt.Sprint(n)) || !check("storing all keys again through equivalent keys") {
+		return
+	}
+	// remove every third, counting the t answers
+	removed := 0
+	for i := range val {
+		if i%3 == 0 {
+			val[i] = -1
+			removed++
+		}
+	}
+	if !run("rem", "(let ((i 0) (r 0)) (dolist (k ks2) (when (and (= 0 (mod i 3)) (remhash k h)) (setq r (+ r 1))) (setq i (+ i 1))) r)", fmt.Sprint(removed)) || !check("removing every third key") {
+		return
+	}
+	// removing them again answers nil every time
+	if !run("rem", "(let ((i 0) (r 0)) (dolist (k ks1) (when (and (= 0 (mod i 3)) (remhash k h)) (setq r (+ r 1))) (setq i (+ i 1))) r)", "0") || !check("removing the same keys again") {
+		return
+	}
+	// a maphash function that removes the entries with an odd value
+	for i := range val {
+		if 0 <= val[i] && val[i]%2 == 1 {
+			val[i] = -1
+		}
+	}
+	if !run("mapdel", "(maphash (lambda (k v) (when (oddp v) (remhash k h))) h)", "nil") || !check("a maphash that removes the entries with an odd value") {
+		return
+	}
+	// store every sixth again
+	for i := range val {
+		if i%6 == 0 {
+			val[i] = i
+		}
+	}
+	if !run("set", "(let ((i 0)) (dolist (k ks1) (when (= 0 (mod i 6)) (setf (gethash k h) i)) (setq i (+ i 1))) i)", fmt.Sprint(n)) || !check("storing every sixth key again") {
+		return
+	}
+	for i := range val {
+		val[i] = -1
+	}
+	if !run("clr", "(eq (clrhash h) h)", "t") || !check("clrhash") {
+		return
+	}
+	if 0 < n {
+		val[n-1] = n - 1
+		if !run("set", fmt.Sprintf("(setf (gethash (nth %d ks2) h) %d)", n-1, n-1), fmt.Sprint(n-1)) || !check("a store after clrhash") {
+			return
+		}
+	}
+	x.Observe(map[string]any{"test": c.Test, "keys": c.Ty, "size": n})
+}
+
 
 // ---- execution and the model --------------------------------------------------
 
@@ -311,7 +628,7 @@ func (m *model) find(k *hv) int {
 // value (by description) for numbers, characters, strings and symbols.
 func keyIs(got slip.Object, k *hv) bool {
 	switch group(k.o.K) {
-	case "opq", "vec", "list":
+	case "opq", "vec", "list", "bitv":
 		return identical(got, k.obj)
 	}
 	return matches(got, describe(k.o))
@@ -369,33 +686,62 @@ func execHist(x *fw.Ctx, c Case) {
 	if c.Test != "" {
 		mk = "(make-hash-table :test (quote " + c.Test + "))"
 	}
-	tab, err := sl.Eval(scope, mk)
-	if err != nil {
-		fail("make", errKind(err), "%s => %s", mk, fmtErr(err))
-		return
-	}
-	if _, ok := tab.(slip.HashTable); !ok {
-		fail("make", "not-a-table", "%s => %s", mk, sl.Show(tab))
-		return
-	}
-	scope.Let(slip.Symbol("h"), tab)
-
-	// the observation form
-	var ob strings.Builder
-	ob.WriteString("(list")
-	for s := range keys {
-		for i := 0; i < 2; i++ {
-			fmt.Fprintf(&ob, " (multiple-value-list (gethash %s h))", keyVar(s, i))
+	// the tables: h, and h2 when an operation addresses a second table; ha is
+	// a second variable holding h
+	nTabs := 1
+	for _, op := range c.Ops {
+		if op.T == 1 {
+			nTabs = 2
+		}
+		if op.T < 0 || 2 < op.T {
+			x.Trivial()
+			return
 		}
 	}
-	ob.WriteString(" (hash-table-count h) (let ((acc nil)) (maphash (lambda (k v) (setq acc (cons (list k v) acc))) h) acc))")
-	obsSrc := ob.String()
+	tabVars := []string{"h", "h2"}
+	var tabObjs []slip.Object
+	for t := 0; t < nTabs; t++ {
+		tab, err := sl.Eval(scope, mk)
+		if err != nil {
+			fail("make", errKind(err), "%s => %s", mk, fmtErr(err))
+			return
+		}
+		if _, ok := tab.(slip.HashTable); !ok {
+			fail("make", "not-a-table", "%s => %s", mk, sl.Show(tab))
+			return
+		}
+		scope.Let(slip.Symbol(tabVars[t]), tab)
+		tabObjs = append(tabObjs, tab)
+	}
+	scope.Let(slip.Symbol("ha"), tabObjs[0])
+	if nTabs == 2 {
+		x.Cover("history:two-tables")
+		if reflect.ValueOf(tabObjs[0]).Pointer() == reflect.ValueOf(tabObjs[1]).Pointer() {
+			fail("make", "shared", "two calls of %s returned one and the same table", mk)
+			return
+		}
+	}
 
-	var m model
+	// the observation form of one table
+	obsSrc := func(tv string) string {
+		var ob strings.Builder
+		ob.WriteString("(list")
+		for s := range keys {
+			for i := 0; i < 2; i++ {
+				fmt.Fprintf(&ob, " (multiple-value-list (gethash %s %s))", keyVar(s, i), tv)
+			}
+		}
+		ob.WriteString(" (hash-table-count " + tv + ") (let ((acc nil)) (maphash (lambda (k v) (setq acc (cons (list k v) acc))) " + tv + ") acc))")
+		return ob.String()
+	}
+
+	models := make([]model, nTabs)
 	var trace []string
-	observe := func(after string) bool {
+	observe1 := func(after string, ti int) bool {
+		m := &models[ti]
+		tv := tabVars[ti]
 		good := true
-		res, err := sl.Eval(scope, obsSrc)
+		res, err := sl.Eval(scope, obsSrc(tv))
 		var gets []slip.Object
 		var count, pairs slip.Object
 		if err == nil {
@@ -409,21 +755,21 @@ func execHist(x *fw.Ctx, c Case) {
 			// attribute: evaluate the pieces one by one
 			for s := range keys {
 				for i := 0; i < 2; i++ {
-					src := fmt.Sprintf("(multiple-value-list (gethash %s h))", keyVar(s, i))
+					src := fmt.Sprintf("(multiple-value-list (gethash %s %s))", keyVar(s, i), tv)
 					g, e := sl.Eval(scope, src)
 					if e != nil {
-						fail("get", errKind(e), "after %s: (gethash %s h) => %s", after, keys[s][i].o.Text(), fmtErr(e))
+						fail("get", errKind(e), "after %s: (gethash %s %s) => %s", after, keys[s][i].o.Text(), tv, fmtErr(e))
 						good = false
 					}
 					gets = append(gets, g)
 				}
 			}
 			var e *sl.Err
-			if count, e = sl.Eval(scope, "(hash-table-count h)"); e != nil {
+			if count, e = sl.Eval(scope, "(hash-table-count "+tv+")"); e != nil {
 				fail("count", errKind(e), "after %s: hash-table-count => %s", after, fmtErr(e))
 				good = false
 			}
-			if pairs, e = sl.Eval(scope, "(let ((acc nil)) (maphash (lambda (k v) (setq acc (cons (list k v) acc))) h) acc)"); e != nil {
+			if pairs, e = sl.Eval(scope, "(let ((acc nil)) (maphash (lambda (k v) (setq acc (cons (list k v) acc))) "+tv+") acc)"); e != nil {
 				fail("map", errKind(e), "after %s: maphash => %s", after, fmtErr(e))
 				good = false
 			}
@@ -450,15 +796,16 @@ func execHist(x *fw.Ctx, c Case) {
 					case got == "(nil nil)":
 						detail = "missing"
 					}
-					fail("get", detail, "after %s: (gethash %s h) => %s, the table as a finite map under eql holds %s [keys are built twice; this is object #%d of slot %d]",
-						after, k.o.Text(), got, want, i, s)
+					fail("get", detail, "after %s: (gethash %s %s) => %s, the table as a finite map under eql holds %s [keys are built twice; this is object #%d of slot %d]",
+						after, k.o.Text(), tv, got, want, i, s)
 					good = false
 				}
 			}
 		}
 		x.Cover("observed:hash-table-count")
+		x.Cover(fmt.Sprintf("table-size:%d", len(m.es)))
 		if sl.Show(count) != fmt.Sprint(len(m.es)) {
-			fail("count", "wrong", "after %s: hash-table-count => %s, %d distinct keys are stored", after, sl.Show(count), len(m.es))
+			fail("count", "wrong", "after %s: (hash-table-count %s) => %s, %d distinct keys are stored", after, tv, sl.Show(count), len(m.es))
 			good = false
 		}
 		x.Cover("observed:maphash")
@@ -498,10 +845,21 @@ func execHist(x *fw.Ctx, c Case) {
 			for _, e := range m.es {
 				ws = append(ws, "("+e.key.o.Text()+" "+valText(e.val)+")")
 			}
-			fail("map", "wrong", "after %s: maphash visited %s, the table holds (%s)", after, sl.Show(pairs), strings.Join(ws, " "))
+			fail("map", "wrong", "after %s: maphash over %s visited %s, the table holds (%s)", after, tv, sl.Show(pairs), strings.Join(ws, " "))
 			good = false
 		}
 		return good
+	}
+	observe := func(after string) bool {
+		for ti := 0; ti < nTabs; ti++ {
+			if !observe1(after, ti) {
+				return false
+			}
+		}
+		if nTabs == 2 {
+			x.Cover("observed:other-table-after-op")
+		}
+		return true
 	}
 
 	if !observe("make-hash-table") {
@@ -514,38 +872,65 @@ func execHist(x *fw.Ctx, c Case) {
 		}
 		k := keys[op.S][op.I]
 		kv := keyVar(op.S, op.I)
+		tv := []string{"h", "h2", "ha"}[op.T]
+		m := &models[op.T%2]
+		if op.T == 2 {
+			x.Cover("op-through-second-variable")
+		}
 		var src, want string
+		wantErr := false
 		switch op.O {
 		case "set":
-			src = fmt.Sprintf("(setf (gethash %s h) %s)", kv, valText(op.V))
+			src = fmt.Sprintf("(setf (gethash %s %s) %s)", kv, tv, valText(op.V))
 			want = valText(op.V)
 			if at := m.find(k); 0 <= at {
 				m.es[at].val = op.V
 			} else {
 				m.es = append(m.es, entry{key: k, val: op.V})
 			}
+		case "bad":
+			src = fmt.Sprintf("(setf (gethash %s %s) (car 3))", kv, tv)
+			wantErr = true
 		case "get":
-			src = fmt.Sprintf("(multiple-value-list (gethash %s h))", kv)
+			src = fmt.Sprintf("(multiple-value-list (gethash %s %s))", kv, tv)
 			want = "(nil nil)"
 			if at := m.find(k); 0 <= at {
 				want = "(" + valText(m.es[at].val) + " t)"
 			}
 		case "rem":
-			src = fmt.Sprintf("(remhash %s h)", kv)
+			src = fmt.Sprintf("(remhash %s %s)", kv, tv)
 			want = "nil"
 			if at := m.find(k); 0 <= at {
 				want = "t"
 				m.es = append(m.es[:at:at], m.es[at+1:]...)
 			}
 		case "clr":
-			src = "(eq (clrhash h) h)"
+			src = "(eq (clrhash " + tv + ") " + tv + ")"
 			want = "t"
 			m.es = nil
 		case "map":
-			src = "(maphash (lambda (k v) (list k v)) h)"
+			src = "(maphash (lambda (k v) (list k v)) " + tv + ")"
 			want = "nil"
+		case "mapdel":
+			src = "(maphash (lambda (k v) (when (and v (oddp v)) (remhash k " + tv + "))) " + tv + ")"
+			want = "nil"
+			var keep []entry
+			for _, e := range m.es {
+				if e.val%2 == 0 {
+					keep = append(keep, e)
+				}
+			}
+			m.es = keep
+		case "mapinc":
+			src = "(maphash (lambda (k v) (when v (setf (gethash k " + tv + ") (+ v 1000)))) " + tv + ")"
+			want = "nil"
+			for i := range m.es {
+				if m.es[i].val != 0 {
+					m.es[i].val += 1000
+				}
+			}
 		case "cnt":
-			src = "(hash-table-count h)"
+			src = "(hash-table-count " + tv + ")"
 			want = fmt.Sprint(len(m.es))
 		default:
 			x.Trivial()
@@ -555,18 +940,31 @@ func execHist(x *fw.Ctx, c Case) {
 		shown := strings.Replace(src, kv, k.o.Text(), 1)
 		trace = append(trace, shown)
 		res, err := sl.Eval(scope, src)
-		if err != nil {
+		switch {
+		case wantErr:
+			if err == nil {
+				fail("ret-"+op.O, "wrong", "op %d %s returned %s, an error was expected [history: %s]", t, shown, sl.Show(res), strings.Join(trace, " "))
+				return
+			}
+			if err.Internal {
+				fail("op-"+op.O, "internal", "op %d %s => %s [history: %s]", t, shown, fmtErr(err), strings.Join(trace, " "))
+				return
+			}
+			x.Cover("failed-store-then-observed")
+		case err != nil:
 			fail("op-"+op.O, errKind(err), "op %d %s => %s [history: %s]", t, shown, fmtErr(err), strings.Join(trace, " "))
 			return
-		}
-		if got := sl.Show(res); got != want {
-			fail("ret-"+op.O, "wrong", "op %d %s returned %s, expected %s [history: %s]", t, shown, got, want, strings.Join(trace, " "))
-			return
+		default:
+			if got := sl.Show(res); got != want {
+				fail("ret-"+op.O, "wrong", "op %d %s returned %s, expected %s [history: %s]", t, shown, got, want, strings.Join(trace, " "))
+				return
+			}
 		}
 		if !observe(fmt.Sprintf("[%s]", strings.Join(trace, " "))) {
 			return
 		}
 	}
 	x.CoverN("model-states", len(c.Ops))
-	x.Observe(map[string]any{"test": c.Test, "history": trace, "final-count": len(m.es), "hazard": haz})
+	final := len(models[0].es)
+	x.Observe(map[string]any{"test": c.Test, "history": trace, "final-count": final, "hazard": haz, "tables": nTabs})
 }
